@@ -153,13 +153,17 @@ func c14ServerScenario(name string, newStreams int, bound int) vsched.Scenario {
 }
 
 func TestVerif_C14_ServerDrainSched(t *testing.T) {
-	const P = "C14"
-	r := vk.Start(t, "c14_server_sched", "exploration", P)
+	props := []string{"C14", "C25"}
+	r := vk.Start(t, "c14_server_sched", "exploration", props...)
 	defer r.Finish()
-	r.Rule(P, "every schedule with at most B preemptions (quick 1, thorough 2) of a real, fully instrumented http2Server (connection reader/operateHeaders, loopy and keepalive are scheduled threads) during a graceful drain: Drain() racing 1-2 new client HEADERS and the client's PING ack; at quiescence every stream at or below the final GOAWAY's last-stream-id was handed to the handler (or reset) and none above it; non-trivial = executions deviating from the default schedule")
-	r.Assume(P, "scheduling points at sync/atomic/channel operations of internal/transport suffice")
+	for _, P := range props {
+		r.Rule(P, "every schedule with at most B preemptions (quick 1, thorough 2) of a real, fully instrumented http2Server (connection reader/operateHeaders, loopy and keepalive are scheduled threads) during a graceful drain: Drain() racing 1-2 new client HEADERS and the client's PING ack; at quiescence every stream at or below the final GOAWAY's last-stream-id was handed to the handler (or reset) and none above it (C25: an RPC the draining server declared accepted is never silently dropped); non-trivial = executions deviating from the default schedule")
+		r.Assume(P, "scheduling points at sync/atomic/channel operations of internal/transport suffice")
+	}
 	b := r.Pick(1, 2)
 	scs := []vsched.Scenario{c14ServerScenario("drain/new1", 1, b), c14ServerScenario("drain/new2", 2, b)}
-	vsched.RunScenarios(t, r, []string{P}, scs)
-	r.Sample(P, map[string]any{"scenario": "drain/new1", "threads": []string{"drain: Drain()", "client: HEADERS(stream 3)", "pingack: PING ack once the drain PING arrived", "background: serve (HandleStreams reader), loopy"}})
+	vsched.RunScenarios(t, r, props, scs)
+	for _, P := range props {
+		r.Sample(P, map[string]any{"scenario": "drain/new1", "threads": []string{"drain: Drain()", "client: HEADERS(stream 3)", "pingack: PING ack once the drain PING arrived", "background: serve (HandleStreams reader), loopy"}})
+	}
 }
